@@ -218,6 +218,10 @@ def make_families(ctx: Ctx, rng):
         {"split_at": 2},
         {"space_sensors": 2, "table_env": True, "env_seed": 4},
         {"space_sensors": 2, "filter_model_differs": True, "table_env": True, "env_seed": 5},
+        # the same space-based sensors in truth-only runs whose output step is a multiple of the physics step: a sensor on
+        # a spacecraft has a truth trajectory too, at EVERY physics step (seed C10/14: propagated lazily, per output step)
+        {"space_sensors": 2, "truth_only": True, "out_mult": 2},
+        {"space_sensors": 2, "truth_only": True, "out_mult": 3, "schedule": "lifo"},
         {"filter_model_differs": True, "events": [{"kind": "addTarget", "t0": None}], "table_env": True, "env_seed": 8},
         {"adaptive": "smm", "table_env": True, "env_seed": 6, "schedule": "lifo"},                                        # the run is split exactly at the family's impulse epoch
         {"drop_sensor": 0, "schedule": "random", "sched_seed": 2},
